@@ -15,7 +15,9 @@ import concurrent.futures, hashlib, json, os, traceback
 from vlib import common as C, e2e, sysrun as S
 
 PROP = "C02"
-THEOREMS = []
+THEOREMS = ["GitAi.Sys.blame_matches_ghost", "GitAi.Sys.rewrite_preserves_attribution", "GitAi.Sys.replay_credit_from_source",
+            "GitAi.Sys.aborted_is_identity", "GitAi.Sys.stash_roundtrip_partial", "GitAi.Sys.witness_stash_upstream_above",
+            "GitAi.Sys.rspecRun_st"]
 
 
 def norm(t):
@@ -636,7 +638,11 @@ def run(tier, seed):
                 "cherry-pick single|range|-n, amend, merge --squash, reset --soft|--mixed + recommit, stash/pop with upstream "
                 "changes, switch/checkout -m carrying work, failing and dry-run operations) with randomised edits, sessions and "
                 "upstream change positions (other file, above, below, both); non-trivial = more than 4 executed steps")
-    res.trusted = ["vlib/props/c02.py text-identity ghost tracking", "real git 2.39"]
+    res.rule += ("; correspondence: for every template the model has (all but conflict resolution inside a stopped rebase, cherry-pick -n "
+                 "and carrying work across a switch) the Lean model Model/Rewrite.lean is fed the runner's steps and the file contents "
+                 "git produced for rewritten commits, and its predicted blame is compared with the binary's at every observation point")
+    res.trusted = ["Lean 4.33 kernel", "vlib/props/c02.py text-identity ghost tracking and model-script recording", "real git 2.39 (its rebase / "
+                   "cherry-pick / merge / stash results are inputs of the model)"]
     ok, out = C.build_git_ai()
     if not ok:
         res.obligation("build binary from /repo working tree", False, "build")
